@@ -126,28 +126,43 @@ def check_grow(chk):
                        'a path of wasmMemoryGrow returning -1 has already stored %r - a failed grow must change nothing'
                        % ([e[1][1] for e in writes],), site)
             continue
-        if p.ret == 0 and not writes:
-            chk.ok('R05.3', 'zero-size[%s]' % cond[:60], 'returns 0 without change')
-            continue
-        n_ok += 1
-        # success path: must have passed the wrap test and the maximum test (both false)
-        newp = None
+        def is_sum(v, min_bits=0):
+            """v is pages + delta (through casts); with min_bits: the addition itself is at least that wide"""
+            v0 = pe.strip_casts(v)
+            if not (is_sym(v0) and v0.op == '+' and {pe.strip_casts(a) for a in v0.args} == {pages, delta}):
+                return False
+            if min_bits:
+                ti = ct.tinfo(v0.ctype)
+                return ti[0] == 'int' and ti[1] >= min_bits
+            return True
         tests = {'wrap': False, 'max': False}
         for c, taken, loc in p.decisions:
             c = pe.norm_cond(c)
-            if c.op == '<' and not taken and c.args[1] == pages:
+            if c.op == '<' and not taken and is_sum(c.args[0]) and pe.strip_casts(c.args[1]) == pages:
                 tests['wrap'] = True
-                newp = c.args[0]
-            if c.op == '>' and not taken and c.args[1] == maxp:
+            if c.op == '>' and not taken and pe.strip_casts(c.args[1]) == maxp and is_sum(c.args[0]):
                 tests['max'] = True
+                if is_sum(c.args[0], 64):
+                    tests['wrap'] = True        # 64-bit page arithmetic cannot wrap for 32-bit operands
+        if isinstance(p.ret, int) and not writes:
+            # a constant result (the "nothing to do" case) is only right when the old size is provably that constant:
+            # new == 0 together with the wrap test gives old == 0
+            zero_new = any(pe.norm_cond(c).op == '==' and t and is_sum(pe.norm_cond(c).args[0]) and pe.norm_cond(c).args[1] == 0
+                           for c, t, _ in p.decisions)
+            chk.expect(p.ret == 0 and zero_new and tests['wrap'], 'R05.3', 'constant-result[%s]' % cond[:60],
+                       'memory.grow returns the constant %r on path %s without having excluded 32-bit wrap-around of old + delta: with '
+                       'old = 3 and delta = 2^32 - 3 the page count wraps to 0 and the call reports old size 0 instead of failing with -1'
+                       % (p.ret, cond), site + ':constant-result')
+            continue
+        n_ok += 1
         chk.expect(tests['wrap'], 'R05.3', 'wrap-test[%s]' % cond[:60],
-                   'a successful grow path is not guarded by a 32-bit page-count wrap test (new < old): %s' % cond, site)
+                   'a successful grow path is not guarded against 32-bit wrap-around of old + delta (neither new < old nor a 64-bit sum): %s' % cond, site)
         chk.expect(tests['max'], 'R05.3', 'max-test[%s]' % cond[:60],
                    'a successful grow path is not guarded by the declared maximum (new > maxPages): %s' % cond, site)
         chk.expect(p.ret == pages, 'R05.3', 'returns-old[%s]' % cond[:60],
                    'successful grow returns %r, specification: the old size in pages' % (p.ret,), site)
         wp = [e[1][2] for e in writes if e[1][1] == 'pages']
-        sum_ok = len(wp) == 1 and is_sym(wp[0]) and wp[0].op == '+' and set(wp[0].args) == {pages, delta}
+        sum_ok = len(wp) == 1 and is_sum(wp[0])
         chk.expect(sum_ok, 'R05.3', 'new-pages[%s]' % cond[:60],
                    'pages is set to %r, specification: old + delta' % (wp,), site)
         ws = [e[1][2] for e in writes if e[1][1] == 'size']
